@@ -176,8 +176,16 @@ func runC12Once(c Case, st *Stats, fault *FaultSpec) (nw, ns int, fired bool, er
 	u := UniverseOf(c)
 	oo := obsForCase(c, nil)
 	inDoubt := false
+	var lastTwinObs *Observation
+	hasMergeStep := false
+	for _, s := range c.Steps {
+		if s.K == "merge" {
+			hasMergeStep = true
+		}
+	}
 	compare := func(i int, what string) error {
 		om, ot := Observe(m, u, oo), Observe(tw, u, oo)
+		lastTwinObs = ot
 		if om.Panic != "" || ot.Panic != "" {
 			return fmt.Errorf("step %d (%s): observation panicked: %q %q", i, what, om.Panic, ot.Panic)
 		}
@@ -207,6 +215,11 @@ func runC12Once(c Case, st *Stats, fault *FaultSpec) (nw, ns int, fired bool, er
 			}
 			for j := range tm.Res {
 				if tm.Res[j].Panic != "" {
+					return nw, ns, fired, errSkip
+				}
+				if !inDoubt && j < len(tt.Res) && tm.Res[j].String() != tt.Res[j].String() && hasMergeStep && tm.Res[j].Err != tt.Res[j].Err &&
+					emptiedStructure(lastTwinObs, s.Ops[j]) && Known("c15-merge-forgets-emptied-set-keys") {
+					// known finding: main and twin may have merged at different moments; an emptied structure exists in one only
 					return nw, ns, fired, errSkip
 				}
 				if !inDoubt && j < len(tt.Res) && tm.Res[j].String() != tt.Res[j].String() {
